@@ -26,24 +26,26 @@ structure Tok where
   len : Nat
 deriving DecidableEq, Repr
 
-inductive Inb where
-  | frame (f : C2R Tok)
+variable {α : Type}
+
+inductive Inb (α : Type) where
+  | frame (f : C2R α)
   /-- end of stream, or a frame the decoder rejects: the actor fails -/
   | eof
 
-structure Sim where
-  st : State Tok
-  inbox : Cid → List Inb
+structure Sim (α : Type) where
+  st : State α
+  inbox : Cid → List (Inb α)
   stalled : Cid → Bool
   runQ : List Cid
 
-def Sim.init : Sim := { st := RelayRegistry.init, inbox := fun _ => [], stalled := fun _ => false, runQ := [] }
+def Sim.init : Sim α := { st := RelayRegistry.init, inbox := fun _ => [], stalled := fun _ => false, runQ := [] }
 
-def Sim.wake (sim : Sim) (c : Cid) : Sim :=
+def Sim.wake (sim : Sim α) (c : Cid) : Sim α :=
   if sim.runQ.contains c then sim else { sim with runQ := sim.runQ ++ [c] }
 
 /-- Applies one model operation and wakes the actors whose queues received something. -/
-def Sim.apply (cfg : Cfg Tok) (sim : Sim) (op : Op Tok) : Sim :=
+def Sim.apply (cfg : Cfg α) (sim : Sim α) (op : Op α) : Sim α :=
   let n := sim.st.log.length
   let st := step cfg sim.st op
   let sim := { sim with st := st }
@@ -53,14 +55,14 @@ def Sim.apply (cfg : Cfg Tok) (sim : Sim) (op : Op Tok) : Sim :=
     | .enq c _ => sim.wake c
     | _ => sim) sim
 
-def Sim.drainGone (cfg : Cfg Tok) : Nat → Sim → Sim
+def Sim.drainGone (cfg : Cfg α) : Nat → Sim α → Sim α
   | 0, sim => sim
   | fuel + 1, sim =>
     match sim.st.pendingGone with
     | [] => sim
     | _ => Sim.drainGone cfg fuel (sim.apply cfg .notifyGone)
 
-def Sim.exitNow (cfg : Cfg Tok) (sim : Sim) (c : Cid) : Sim :=
+def Sim.exitNow (cfg : Cfg α) (sim : Sim α) (c : Cid) : Sim α :=
   let sim := sim.apply cfg (.actorExit c)
   let sim := sim.apply cfg (.unregister c)
   Sim.drainGone cfg (sim.st.pendingGone.length + 1) sim
@@ -68,7 +70,7 @@ def Sim.exitNow (cfg : Cfg Tok) (sim : Sim) (c : Cid) : Sim :=
 def setFn {β : Type} (f : Cid → β) (c : Cid) (v : β) : Cid → β := fun k => if k = c then v else f k
 
 /-- One poll of the actor of `c`: it runs until nothing is ready. -/
-def Sim.actorTurn (cfg : Cfg Tok) : Nat → Sim → Cid → Sim
+def Sim.actorTurn (cfg : Cfg α) : Nat → Sim α → Cid → Sim α
   | 0, sim, _ => sim
   | fuel + 1, sim, c =>
     match sim.st.conns c with
@@ -89,14 +91,14 @@ def Sim.actorTurn (cfg : Cfg Tok) : Nat → Sim → Cid → Sim
           else if !x.msgQ.isEmpty then Sim.actorTurn cfg fuel (sim.apply cfg (.deliverMsg c)) c
           else sim
 
-def Sim.settle (cfg : Cfg Tok) : Nat → Sim → Sim
+def Sim.settle (cfg : Cfg α) : Nat → Sim α → Sim α
   | 0, sim => sim
   | fuel + 1, sim =>
     match sim.runQ with
     | [] => sim
     | c :: rest => Sim.settle cfg fuel (Sim.actorTurn cfg 100000 { sim with runQ := rest } c)
 
-def Sim.pushIn (sim : Sim) (c : Cid) (i : Inb) : Sim :=
+def Sim.pushIn (sim : Sim α) (c : Cid) (i : Inb α) : Sim α :=
   -- a connection index the script has not created yet: the harness ignores the operation
   if c ≥ sim.st.nextCid then sim else
   let cur := sim.inbox c
@@ -106,21 +108,20 @@ def Sim.pushIn (sim : Sim) (c : Cid) (i : Inb) : Sim :=
   let sim := if ended then sim else { sim with inbox := setFn sim.inbox c (cur ++ [i]) }
   sim.wake c
 
-/-- Script operations (the harness grammar). -/
-inductive SOp where
+/-- Script operations (the harness grammar); frames arrive already decoded by the
+property's decoder model (`none` = rejected: the reading actor fails). -/
+inductive SOp (α : Type) where
   | reg (id : Id) (v1 : Bool)
   | close (c : Cid)
   | bad (c : Cid)
   | disc (id : Id) (sel : Option Cid)
-  | send (c : Cid) (dst : Id) (batch : Bool) (ecn : Nat) (seg : Nat) (tok : Tok)
   | ping (c : Cid) (data : Nat)
   | pong (c : Cid) (data : Nat)
   | stall (c : Cid)
   | unstall (c : Cid)
   | shutdown
   | shutreg (id : Id) (v1 : Bool)
-  /-- a frame the property's own decoder model has already decoded (`none` = rejected) -/
-  | decoded (c : Cid) (f : Option (C2R Tok))
+  | decoded (c : Cid) (f : Option (C2R α))
 
 /-- Size check of the server-side decoder `ClientToRelayMsg::from_bytes` for a datagram
 frame: what follows the frame type must be at most `MAX_PACKET_SIZE` bytes. -/
@@ -131,10 +132,10 @@ def decoderAccepts (cfg : Cfg Tok) (batch : Bool) (len : Nat) : Bool :=
 def decodeDgram (batch : Bool) (ecn seg : Nat) (tok : Tok) : Dgram Tok :=
   { ecn := ecn % 4, seg := if batch then seg else 0, contents := tok }
 
-def registeredList (st : State Tok) : List Cid :=
+def registeredList (st : State α) : List Cid :=
   (List.range st.nextCid).filter (isRegistered st)
 
-def Sim.doOp (cfg : Cfg Tok) (sim : Sim) : SOp → Sim × String
+def Sim.doOp (cfg : Cfg α) (sim : Sim α) : SOp α → Sim α × String
   | .reg id v1 =>
     let c := sim.st.nextCid
     (((sim.wake c).apply cfg (.register id v1)), s!"c{c}")
@@ -151,10 +152,6 @@ def Sim.doOp (cfg : Cfg Tok) (sim : Sim) : SOp → Sim × String
       | none, _ => false
     let sim := sim.apply cfg (.disconnect id sel)
     (targets.foldl Sim.wake sim, if found then "t" else "f")
-  | .send c dst batch ecn seg tok =>
-    if decoderAccepts cfg batch tok.len then
-      (sim.pushIn c (.frame (.datagrams dst (decodeDgram batch ecn seg tok))), "-")
-    else (sim.pushIn c .eof, "-")
   | .ping c data => (sim.pushIn c (.frame (.ping data)), "-")
   | .pong c data => (sim.pushIn c (.frame (.pong data)), "-")
   | .stall c =>
@@ -183,11 +180,14 @@ def statusNum : Status → Nat
   | .healthy => 0
   | .sameIdConnected => 1
 
+def msgStr : Msg → String
+  | .endpointGone id => s!"G{id}"
+  | .status s => s!"S{statusNum s}"
+  | .health s => s!"H{statusNum s}"
+
 def frameStr : R2C Tok → String
   | .datagrams src d => s!"D{src}.{d.ecn}.{d.seg}.{d.contents.text}"
-  | .msg (.endpointGone id) => s!"G{id}"
-  | .msg (.status s) => s!"S{statusNum s}"
-  | .msg (.health s) => s!"H{statusNum s}"
+  | .msg m => msgStr m
   | .pong data => s!"P{hex16 data}"
 
 def joinWith (sep : String) (l : List String) : String := sep.intercalate l
@@ -198,7 +198,7 @@ def insertSorted (x : Nat) : List Nat → List Nat
 
 def sortNat (l : List Nat) : List Nat := l.foldr insertSorted []
 
-def snapStr (numIds : Nat) (st : State Tok) : String :=
+def snapStr (numIds : Nat) (st : State α) : String :=
   let es := (List.range numIds).filterMap fun id =>
     match st.entries id with
     | none => none
@@ -211,8 +211,10 @@ def snapStr (numIds : Nat) (st : State Tok) : String :=
   let t := if ts.isEmpty then "-" else joinWith ";" ts
   s!"R{r} T{t}"
 
-/-- Runs one script operation to quiescence and renders what the harness observes. -/
-def Sim.runOp (cfg : Cfg Tok) (numIds : Nat) (sim : Sim) (op : SOp) : Sim × String :=
+/-- Runs one script operation to quiescence and renders what the harness observes;
+`render c f` is how frame `f` written to connection `c` is shown. -/
+def Sim.runOp (render : State α → Cid → R2C α → String) (cfg : Cfg α) (numIds : Nat) (sim : Sim α)
+    (op : SOp α) : Sim α × String :=
   let n := sim.st.log.length
   let before := sim.st
   let (sim, res) := sim.doOp cfg op
@@ -222,13 +224,20 @@ def Sim.runOp (cfg : Cfg Tok) (numIds : Nat) (sim : Sim) (op : SOp) : Sim × Str
   let frames := conns.filterMap fun c =>
     let fs := evs.filterMap fun ev =>
       match ev with
-      | .out c' f => if c' = c then some (frameStr f) else none
+      | .out c' f => if c' = c then some (render before c f) else none
       | _ => none
     if fs.isEmpty then none else some s!"c{c}[{joinWith "," fs}]"
   let ended := conns.filter fun c => (before.conns c).isSome && (sim.st.conns c).isNone
   let fstr := if frames.isEmpty then "-" else joinWith "" frames
   let estr := if ended.isEmpty then "-" else joinWith "," (ended.map toString)
   (sim, s!"{res} {fstr} X{estr} {snapStr numIds sim.st}")
+
+def runScript (render : State α → Cid → R2C α → String) (cfg : Cfg α) (numIds : Nat) (ops : List (SOp α)) :
+    String :=
+  let (_, outs) := ops.foldl (fun (acc : Sim α × List String) op =>
+    let (sim, o) := acc.1.runOp render cfg numIds op
+    (sim, o :: acc.2)) (Sim.init, [])
+  joinWith "|" outs.reverse
 
 -- ---------------------------------------------------------------------------------------------
 -- parsing
@@ -249,7 +258,8 @@ def parseVer : String → Option Bool
   | "2" => some false
   | _ => none
 
-def parseSOp (s : String) : Option SOp :=
+/-- The operations that carry no datagram. -/
+def parseCtl (s : String) : Option (SOp α) :=
   match tokens s with
   | ["reg", id, v] => do pure (.reg (← id.toNat?) (← parseVer v))
   | ["close", c] => do pure (.close (← c.toNat?))
@@ -257,12 +267,6 @@ def parseSOp (s : String) : Option SOp :=
   | ["disc", id, "*"] => do pure (.disc (← id.toNat?) none)
   | ["disc", id, "x"] => do pure (.disc (← id.toNat?) (some 1000000000))
   | ["disc", id, c] => do pure (.disc (← id.toNat?) (some (← c.toNat?)))
-  | ["send", c, dst, k, ecn, seg, tok] => do
-    let batch ← (match k with
-      | "s" => some false
-      | "b" => some true
-      | _ => none)
-    pure (.send (← c.toNat?) (← dst.toNat?) batch (← ecn.toNat?) (← seg.toNat?) (← parseTok tok))
   | ["ping", c, d] => do pure (.ping (← c.toNat?) (← natOfHex d))
   | ["pong", c, d] => do pure (.pong (← c.toNat?) (← natOfHex d))
   | ["stall", c] => do pure (.stall (← c.toNat?))
@@ -271,9 +275,26 @@ def parseSOp (s : String) : Option SOp :=
   | ["shutreg", id, v] => do pure (.shutreg (← id.toNat?) (← parseVer v))
   | _ => none
 
+def parseSOp (cfg : Cfg Tok) (s : String) : Option (SOp Tok) :=
+  match tokens s with
+  | ["send", c, dst, k, ecn, seg, tok] => do
+    let batch ← (match k with
+      | "s" => some false
+      | "b" => some true
+      | _ => none)
+    let tok ← parseTok tok
+    let dst ← dst.toNat?
+    let ecn ← ecn.toNat?
+    let seg ← seg.toNat?
+    let f : Option (C2R Tok) :=
+      if decoderAccepts cfg batch tok.len then some (.datagrams dst (decodeDgram batch ecn seg tok))
+      else none
+    pure (.decoded (← c.toNat?) f)
+  | _ => parseCtl s
+
 /-- Parses and replays a whole payload; `mkCfg cap` builds the configuration
 (`cap = 0` stands for the crate's default capacity). -/
-def runPayloadWith (extra : Cfg Tok → String → Option SOp) (mkCfg : Nat → Cfg Tok) (numIds : Nat)
+def runPayloadWith (extra : Cfg Tok → String → Option (SOp Tok)) (mkCfg : Nat → Cfg Tok) (numIds : Nat)
     (payload : String) : String :=
   match payload.splitOn ";" with
   | [] => "bad-input"
@@ -283,13 +304,9 @@ def runPayloadWith (extra : Cfg Tok → String → Option SOp) (mkCfg : Nat → 
     | some cap =>
       let cfg := mkCfg cap
       match (opsS.filter (fun o => !(tokens o).isEmpty)).mapM
-          (fun o => (parseSOp o).orElse fun _ => extra cfg o) with
+          (fun o => (parseSOp cfg o).orElse fun _ => extra cfg o) with
       | none => "bad-input"
-      | some ops =>
-        let (_, outs) := ops.foldl (fun (acc : Sim × List String) op =>
-          let (sim, o) := acc.1.runOp cfg numIds op
-          (sim, o :: acc.2)) (Sim.init, [])
-        joinWith "|" outs.reverse
+      | some ops => runScript (fun _ _ f => frameStr f) cfg numIds ops
 
 def runPayload (mkCfg : Nat → Cfg Tok) (numIds : Nat) (payload : String) : String :=
   runPayloadWith (fun _ _ => none) mkCfg numIds payload
